@@ -24,7 +24,7 @@ def fl(x):
 # spec helpers
 def leaves(e):
     k = e["k"]
-    if k in ("scale", "chain", "ham", "lin", "vmodel"):
+    if k in ("scale", "chain", "ham", "lin", "vmodel", "cmodel"):
         yield from leaves(e["e"])
     elif k == "sum":
         for s in e["es"]:
@@ -433,6 +433,11 @@ def model_leaf(l, n):
             return {"k": "gaussDiag", "w": nums([l["c"]] * m), "d": nums(d)}
         if l["icov"] == "diag":
             return {"k": "gaussDiag", "w": nums(list(l["diag"]) * (2 if cplx else 1)), "d": nums(d)}
+        if l["icov"] == "csand":
+            # complex bun (chain of complex-linear operators): real-coordinate matrix of the bun, cheese doubled
+            from . import _c11_cplx as C
+            J = C.chain_ref(l["bunops"], [0.0] * m, True, {"shape": [n], "dist": [1.0]})[1]
+            return {"k": "gaussSand", "A": [nums(r) for r in J.tolist()], "D": nums(list(l["diag"]) * 2), "d": nums(d)}
         return {"k": "gaussSand", "A": [nums(r) for r in l["bun"]], "D": nums(l["diag"]), "d": nums(d)}
     if k in ("poisson", "bernoulli"):
         return {"k": k, "d": nums(l["d"])}
@@ -466,13 +471,18 @@ def model_node(case, e):
     n = npix(case["dom"])
     k = e["k"]
     if k == "scale":
-        return {"k": "scale", "c": num(e["c"]), "e": model_node(case, e["e"])}
+        sub_ = model_node(case, e["e"])
+        return None if sub_ is None else {"k": "scale", "c": num(e["c"]), "e": sub_}
     if k == "ham":
-        return {"k": "ham", "e": model_node(case, e["e"])}
+        sub_ = model_node(case, e["e"])
+        return None if sub_ is None else {"k": "ham", "e": sub_}
     if k == "sum":
-        r = model_node(case, e["es"][0])
-        for s in e["es"][1:]:
-            r = {"k": "add", "a": r, "b": model_node(case, s)}
+        parts = [model_node(case, s) for s in e["es"]]
+        if any(p_ is None for p_ in parts):
+            return None
+        r = parts[0]
+        for p_ in parts[1:]:
+            r = {"k": "add", "a": r, "b": p_}
         return r
     if k == "chain" and e["e"]["k"] in ("sum", "scale", "chain", "lin", "ham"):
         fs = []
@@ -481,6 +491,32 @@ def model_node(case, e):
             f = e["f"].get(kk, {"f": "id"})
             fs += [model_pf(f, j % m) for j in range(m * (2 if c else 1))]
         return {"k": "ptw", "fs": fs, "e": model_node(case, e["e"])}
+    if k == "cmodel":
+        # complex model: representable in the list model iff every chain is (real-)linear: one `lin` node with the
+        # real-coordinate matrix of the chains (from the NumPy definition side; harness glue)
+        from . import _c11_cplx as C
+        import numpy as np
+        if not all(C.is_linear(ops) for ops in e["ops"].values()):
+            return None
+        off, N = key_offsets(case)
+        keys = sorted({kk for l in leaves(e["e"]) for kk in leaf_keys(l)})
+        blocks, o2, cin = [], 0, {}
+        for kk in keys:
+            o, m = off[kk]
+            _, J, c2, _ = C.chain_ref(e["ops"].get(kk, []), [0.0] * m, bool(case["cplx"].get(kk)), case["dom"])
+            blocks.append((o, m, J))
+            cin[kk] = c2
+            o2 += J.shape[0]
+        Jt = np.zeros((o2, N))
+        r = 0
+        for o, m, J in blocks:
+            Jt[r:r + J.shape[0], o:o + m] = J
+            r += J.shape[0]
+        case_in = dict(case, pos={kk: [] for kk in keys}, cplx=cin)
+        inner = model_node(case_in, e["e"])
+        if inner is None:
+            return None
+        return {"k": "lin", "rows": o2, "A": [nums(r_) for r_ in Jt.tolist()], "e": inner}
     if k == "vmodel":
         return {"k": "lin", "rows": 2 * n, "A": [nums(r) for r in e["A"]] + [nums(r) for r in e["B"]],
                 "e": {"k": "ptw", "fs": [{"f": "id"}] * n + [{"f": "exp"}] * n,
@@ -504,4 +540,6 @@ def model_node(case, e):
 
 
 def model_line(case):
-    return {"op": "eval", "x": nums(flatx(case)), "e": model_node(case, case["e"])}
+    """None: the case contains a non-linear complex model the list model cannot express (oracle only)"""
+    node = model_node(case, case["e"])
+    return None if node is None else {"op": "eval", "x": nums(flatx(case)), "e": node}
